@@ -17,6 +17,9 @@ pub(crate) enum BindingsFacade {
 
     #[cfg(test)]
     Mock(Arc<MockBindings>),
+
+    #[cfg(folo_verif)]
+    Verif(crate::pal::linux::verif::VerifBindingsAdapter),
 }
 
 impl BindingsFacade {
@@ -36,6 +39,8 @@ impl Bindings for BindingsFacade {
             Self::Target(bindings) => bindings.sched_setaffinity_current(mask),
             #[cfg(test)]
             Self::Mock(mock) => mock.sched_setaffinity_current(mask),
+            #[cfg(folo_verif)]
+            Self::Verif(verif) => verif.sched_setaffinity_current(mask),
         }
     }
 
@@ -44,6 +49,8 @@ impl Bindings for BindingsFacade {
             Self::Target(bindings) => bindings.sched_getcpu(),
             #[cfg(test)]
             Self::Mock(mock) => mock.sched_getcpu(),
+            #[cfg(folo_verif)]
+            Self::Verif(verif) => verif.sched_getcpu(),
         }
     }
 
@@ -52,6 +59,8 @@ impl Bindings for BindingsFacade {
             Self::Target(bindings) => bindings.sched_getaffinity_current(words),
             #[cfg(test)]
             Self::Mock(mock) => mock.sched_getaffinity_current(words),
+            #[cfg(folo_verif)]
+            Self::Verif(verif) => verif.sched_getaffinity_current(words),
         }
     }
 }
@@ -63,6 +72,8 @@ impl Debug for BindingsFacade {
             Self::Target(inner) => inner.fmt(f),
             #[cfg(test)]
             Self::Mock(inner) => inner.fmt(f),
+            #[cfg(folo_verif)]
+            Self::Verif(verif) => verif.fmt(f),
         }
     }
 }
